@@ -112,17 +112,17 @@ theorem step_init_fresh (ns : Bool) (fk k : Key) (s : Option Key) (hfk : fk.aesO
       have htk : ({ root := k, keys := [(1, fk)], active := 1 } : Keyring).termKey 1 = some fk := by
         simp [Keyring.termKey]
       obtain ⟨hp, hc⟩ := pinv_fresh k fk hk hfk
-      have hp2 := hp.del_meta .legacy (by simp) (by simp) (by simp)
-      have hc2 := hc.del_other .legacy (by simp)
+      have hp2 := hp.legTail ns
+      have hc2 := hc.legTail ns
       cases s with
       | none =>
-        simp [hsz, hg, persist, hk, htk, hfk, updShadow, applyWrites, applyWrite]
+        simp [hsz, hg, persistNs_eq, hk, htk, hfk, updShadow, applyWrites, applyWrite, foldl_legacyDel]
         exact ⟨_, hp2, hc2⟩
       | some sk =>
-        simp [hsz, hg, persist, hk, htk, hfk, updShadow, applyWrites, applyWrite]
+        simp [hsz, hg, persistNs_eq, hk, htk, hfk, updShadow, applyWrites, applyWrite, foldl_legacyDel]
         exact ⟨_, hp2.put_meta .kek 1 fk _ (by simp) (by simp) htk (by simp) (by simp), hc2.put_other _ _ (by simp)⟩
     · have hg : Phys.get [] Path.keyring = none := rfl
-      simp [hsz, hg, persist, hk, updShadow]
+      simp [hsz, hg, persistNs_eq, hk, updShadow]
   · simp [hsz, updShadow]
 
 theorem subK_none (S : List Key) (KR : Keyring) : SubK S {} KR := by intro kr hkr; cases hkr
